@@ -405,8 +405,54 @@ impl FromStr for Selection {
                 }
 //@@ endfn
 }
+impl Get for Selection {
+    open spec fn get_spec(&self, value: &Context) -> Option<JsonValue> { self.g().get_spec(value) }
+//@@ fn expr.selection.get = src/selection.rs :: impl Get for Selection :: fn get
+//@@ safety C04 C13
+//@@ post delegates "a Selection evaluates to what its getter evaluates to"
+//@@ endfn
+}
 }
 
+
+// ---- the parse_selection function (src/functions/string/parse_and_stringify/parse_selection.rs): a --select text evaluated here ----
+//@@ include prelude/fnargs_apply.rs
+pub mod vsel {
+use vstd::prelude::*;
+use std::rc::Rc;
+use super::*;
+use super::selection_m::*;
+// Selection::from_str as a FUNCTION of the option text (assumed: the parser is deterministic), with the clause unit EXPR proves
+// for the real body (EXPR.selection.text): an accepted text is `ws expr ws [= title]` and the getter is the shared reader's
+pub uninterp spec fn sel_fn(text: Seq<char>) -> Option<Rc<dyn Get>>;
+#[verifier::external_body]
+pub fn selection_from_str(s: &str) -> (r: std::result::Result<Selection, SelectionParseError>)
+    ensures r is Ok <==> sel_fn(s@) is Some, r is Ok ==> r->Ok_0.g() == sel_fn(s@)->0,
+        r is Ok ==> (select_text(s@) matches Some(gt) && gt.0 == r->Ok_0.g()),
+{ unimplemented!() }
+#[verifier::external_body]
+pub fn as_str_of(s: &String) -> (r: &str) ensures r@ == s@ { unimplemented!() }
+}
+pub mod f_parse_selection {
+use super::*;
+//@@ item src/functions/string/parse_and_stringify/parse_selection.rs :: fn get :: struct Impl
+//@@ rewrite pub_tuple pub_struct
+//@@ enditem
+impl Get for Impl {
+    open spec fn get_spec(&self, value: &Context) -> Option<JsonValue> {
+        match arg(self.0@, value, 0) {
+            Some(JsonValue::String(s)) => match vsel::sel_fn(s@) { Some(g) => g.get_spec(value), None => None },
+            _ => None,
+        }
+    }
+//@@ fn f.parse_selection = src/functions/string/parse_and_stringify/parse_selection.rs :: fn get :: impl Get for Impl :: fn get
+//@@ safety C04 C13 C05
+//@@ ret r
+//@@ rewrite selection_from_str_fn as_str_sel
+//@@ post doc "(parse_selection s) is the value of the selection expression written in the string s, evaluated on the CURRENT context (input, parents, bindings); nothing when s is not a string or not a valid --select text"
+//@@ endfn
+}
+}
 
 // ---- --sort-by: Sorter::from_str (src/sorters.rs): <expression> [ASC|DESC] — the direction word (C18: an unknown direction is
 // an error; C07: DESC exactly for the word DESC; C13: the getter is the shared reader's)
